@@ -22,14 +22,21 @@ RULE = ("programs = 2-4 constructed quantities (float/int/array/Decimal magnitud
         "tan arcsin arccos arctan absolute floor ceil abs round sum isnan linspace logspace), value(unit), operands "
         "drawn from all live quantities incl. earlier results and x op x, interleaved with and followed by in-place "
         "methods (to text/BaseUnits/Quantity, rebase, abse, rele, in-place array writes) on every live quantity; "
-        "corpus of the recon inputs first. non-trivial = at least one binary/NumPy operation on operands of "
+        "corpus of the recon inputs first; a second stream of mixed float/Decimal scalar programs (either side, "
+        "results inheriting an operand's BaseUnits, other-unit queries and conversions of the results first, of the "
+        "operands afterwards). Observation of every live quantity after every step = value(), units(), abse() AND "
+        "value(other unit of the same dimension: SI-base form + the units the program uses), all with their Python "
+        "type (float / Decimal / array dtype), asked of a deep copy; cached fields and dict content of every live "
+        "BaseUnits object are read before/after every step. non-trivial = at least one binary/NumPy operation on operands of "
         "different units, or on an earlier result, or x op x, followed by at least one in-place method; "
         "distinct = canonical JSON of the program")
 ASSUMPTIONS = [
     "abse()/rele() setters are given plain numbers (an array argument would be stored by reference by design)",
     "BaseUnits and exponent dicts are frozen after construction (proved for the model, theorem C07_units_frozen; "
-    "checked on the real objects through the oracle); sharing them between result and operand is therefore not "
-    "'mutable state'. Fraction.rebase() normalises exponents in place inside shared dicts; it is value-preserving "
+    "checked on the real objects on every step: magnitude incl. its type, dimensions, units, expression, nodim, "
+    "nobase and the dict content of every BaseUnits object held by a live quantity must be identical before and "
+    "after; a write is an impl-vs-model disagreement, its effect on any quantity's converted value a violation); "
+    "sharing them between result and operand is therefore not 'mutable state'. Fraction.rebase() normalises exponents in place inside shared dicts; it is value-preserving "
     "and outside the model",
     "value() without a unit and abse() without an argument are accessors that hand out the internal array; "
     "writing through them is modelled as an in-place method of that quantity (op 'poke')",
@@ -172,6 +179,56 @@ def gen_prog(rng, maxops):
     return prog
 
 
+def gen_mixed_prog(rng):
+    """mixed float/Decimal scalar operands (either side), results inheriting an operand's BaseUnits, then
+    other-unit queries / conversions of the RESULTS first and of the OPERANDS afterwards"""
+    fam = rng.choice(["length", "time", "area", "speed", "angle", "temp", "nodim", "log"])
+    units = FAMILIES[fam]
+    kinds = ["float", "decimal"] + [rng.choice(["float", "int", "decimal"]) for _ in range(rng.randint(0, 1))]
+    rng.shuffle(kinds)
+    pool = [20, 30, 10] if fam == "log" else [2, 1.5, 3, 0.25, 20, 1000]
+    prog = []
+    for k in kinds:
+        v = rng.choice(pool)
+        v = str(v) if k == "decimal" else (int(v) if k == "int" else float(v))
+        prog.append(["new", k, v, rng.choice(units), None])
+    nv = len(kinds)
+    nops = rng.randint(1, 3)
+    for _ in range(nops):
+        r = rng.random()
+        i, j = rng.randrange(nv), rng.randrange(nv)
+        if r < 0.6:
+            prog.append(["bin", rng.choice(["add", "sub", "add", "sub", "mul", "div"]), i, j])
+        elif r < 0.7:
+            prog.append(["neg", i])
+        elif r < 0.8:
+            prog.append(["ufunc", rng.choice(["absolute", "negative_ufunc", "floor"]), i])
+        elif r < 0.9:
+            prog.append(["binnum", rng.choice(["add", "sub", "mul"]), i, rng.choice([1, 2]), rng.random() < 0.5])
+        else:
+            prog.append(["space1", "lin", i, 0, True])
+        nv += 1
+
+    def query(i):
+        r = rng.random()
+        u = rng.choice(units)
+        if r < 0.45:
+            return ["value", i, u]
+        if r < 0.8:
+            return ["to", i, ["text", u]]
+        if r < 0.9:
+            return ["cmp", "eq", i, rng.randrange(nv)]
+        return ["rebase", i]
+    order = list(range(len(kinds), nv))
+    rng.shuffle(order)
+    first = list(range(len(kinds)))
+    rng.shuffle(first)
+    for i in order + first:
+        for _ in range(rng.randint(1, 2)):
+            prog.append(query(i))
+    return prog
+
+
 # ------------------------------------------------------------------ real code
 def _np():
     import numpy as np
@@ -195,9 +252,41 @@ def canon_val(v):
     return ["?", repr(v)]
 
 
-def observe(q):
-    """what the property observes: value(), units(), abse() — exact, no tolerance"""
-    return [canon_val(q.value()), q.units(), canon_val(q.abse())]
+def converted(q, alts):
+    """value in OTHER units of the same dimension, with its Python type: the SI-base form of the quantity's
+    dimension and the units the program itself uses.  Asked of a deep copy, so that the question cannot
+    disturb the real objects (a conversion that writes would otherwise be triggered by the observer)."""
+    import copy
+    from scinumtools.units import BaseUnits
+    out = []
+    try:
+        c = copy.deepcopy(q)
+    except Exception:
+        return ["nocopy"]
+    targets = [None] + list(alts)
+    for t in targets:
+        try:
+            tgt = BaseUnits(c.baseunits.dimensions) if t is None else t
+            out.append(canon_val(c.value(tgt)))
+        except Exception:
+            out.append("err")
+    return out
+
+
+def observe(q, alts=()):
+    """what the property observes: value(), units(), abse() — exact, no tolerance, Python type included —
+    plus value(other unit) for other units of the same dimension"""
+    return [canon_val(q.value()), q.units(), canon_val(q.abse()), converted(q, alts)]
+
+
+def bu_fields(b):
+    """the cached fields of a BaseUnits object and the content of its exponent dict (types included)"""
+    try:
+        d = [[k, str(v)] for k, v in b.baseunits.items()]
+    except Exception:
+        d = "?"
+    return [canon_val(b.magnitude), repr(b.dimensions), list(b.units) if isinstance(b.units, list) else repr(b.units),
+            b.expression, bool(b.nodim), bool(b.nobase), d]
 
 
 def slots(q, keep):
@@ -256,6 +345,8 @@ class Impl:
         self.step_of_mop = []
         self.trace = []       # per harness step: dict
         self.prog = []        # the program as executed (references normalised)
+        self.alts = []
+        self.conv_cache = {}
 
     def mi(self, i):
         return self.hvar[i]
@@ -286,17 +377,53 @@ class Impl:
         return [None if q is None else slots(q, self.keep) for q in self.vars]
 
     def observations(self):
-        return [None if q is None else observe(q) for q in self.vars]
+        """`converted` is a deterministic function of (value, error, cached BaseUnits fields, dict content);
+        it is recomputed only when that state differs from any state seen before in this program"""
+        out = []
+        for q in self.vars:
+            if q is None:
+                out.append(None)
+                continue
+            base = [canon_val(q.value()), q.units(), canon_val(q.abse())]
+            key = json.dumps([base, bu_fields(q.baseunits)], default=str)
+            if key not in self.conv_cache:
+                self.conv_cache[key] = converted(q, self.alts)
+            out.append(base + [self.conv_cache[key]])
+        return out
+
+    def bu_watch(self):
+        """every BaseUnits object held by a live quantity, with its cached fields"""
+        seen, out = set(), []
+        for i, q in enumerate(self.vars):
+            if q is None:
+                continue
+            b = q.baseunits
+            if id(b) in seen:
+                continue
+            seen.add(id(b))
+            self.keep.append(b)
+            out.append((i, b, bu_fields(b)))
+        return out
 
     def run(self, prog):
         np = _np()
         from scinumtools.units import Quantity, BaseUnits
+        # other units of the same dimension to ask every quantity for: the units the program itself uses
+        alts = []
+        for op in prog:
+            u = op[3] if op[0] == "new" else (op[2] if op[0] == "value" else
+                                              (op[2][1] if op[0] == "to" and op[2][0] == "text" else None))
+            if isinstance(u, str) and u not in alts:
+                alts.append(u)
+        self.alts = alts[:3]
         with warnings.catch_warnings(), np.errstate(all="ignore"):
             warnings.simplefilter("ignore")
+            after = self.observations()
             for n, op in enumerate(prog):
                 op = self.normalise(op)
                 self.prog.append(op)
-                before = self.observations()
+                before = after           # nothing happens between two steps
+                watch = self.bu_watch()
                 rec = {"op": op, "ok": True, "allowed": [], "roles": {}}
                 try:
                     self.one(op, rec, np, Quantity, BaseUnits)
@@ -305,6 +432,8 @@ class Impl:
                 after = self.observations()
                 rec["before"], rec["after"] = before, after
                 rec["snap"] = self.snapshot()
+                # BaseUnits objects that existed before the step must not have been written (frozen)
+                rec["bu_written"] = [[i, f0, bu_fields(b)] for i, b, f0 in watch if bu_fields(b) != f0]
                 self.trace.append(rec)
         return self
 
@@ -605,7 +734,8 @@ def oracle(impl):
                         (rec["op"], tgt, impl.prov[tgt], hi, impl.prov[hi], short(b), short(a)))
             else:
                 sig = "changed:%s:%s%s" % (name, role, "" if rec["ok"] else ":raised")
-                what = ("%s altered its %s operand #%d: %s -> %s" % (rec["op"], role, hi, short(b), short(a)))
+                who = "a bystander quantity" if role == "bystander" else "its %s operand" % role
+                what = ("%s altered %s #%d: %s -> %s" % (rec["op"], who, hi, short(b), short(a)))
             out.append((sig, what, n))
     return out
 
@@ -622,7 +752,10 @@ def short(o):
         if v[0] == "dec":
             return "Decimal(%s)" % v[1]
         return str(v[1])
-    return "(%s %s ±%s)" % (f(o[0]), o[1], f(o[2]))
+    conv = ""
+    if len(o) > 3:
+        conv = " | in other units: " + ", ".join(x if isinstance(x, str) else f(x) for x in o[3])
+    return "(%s %s ±%s%s)" % (f(o[0]), o[1], f(o[2]), conv)
 
 
 def run_impl(prog):
@@ -683,6 +816,22 @@ def judge(ctx, prog, impl, resp, stream):
                          "alias relation differs after %s: impl %s model %s (columns: Magnitude, value array, "
                          "error array, BaseUnits, dict)" % (rec["op"], ri[k], rm[k]))
         good = False
+    # frozen units: the model never writes an existing BaseUnits object / dict (theorem C07_units_frozen);
+    # the real cached fields (magnitude incl. type, dimensions, units, expression, nodim, nobase, dict content)
+    # of every BaseUnits object held by a live quantity are read before and after every step
+    for k, r in enumerate(model):
+        if r.get("bu_written"):
+            ctx.disagreement(stream, {"program": prog}, "model writes an existing BaseUnits at model op %d" % k)
+            good = False
+    for n, rec in enumerate(impl.trace):
+        if rec.get("bu_written"):
+            i, f0, f1 = rec["bu_written"][0]
+            ctx.disagreement(stream, {"program": impl.prog[:n + 1], "step": n},
+                             "%s wrote the BaseUnits object held by quantity(model index %d) — the model (and "
+                             "C07_units_frozen) say no existing BaseUnits is ever written: %s -> %s" %
+                             (rec["op"], i, f0, f1))
+            good = False
+            break
     # result kind of value(unit)
     for k, mop in enumerate(impl.mops):
         if mop[0] == "value":
@@ -851,8 +1000,10 @@ def run_stream(ctx, progs, stream):
 def correspond(ctx: Ctx):
     thorough = ctx.tier == "thorough"
     run_stream(ctx, corpus_programs(), "corpus")
-    progs = [gen_prog(ctx.rng, 12 if thorough else 8) for _ in range(6000 if thorough else 700)]
+    progs = [gen_prog(ctx.rng, 12 if thorough else 8) for _ in range(6000 if thorough else 600)]
     run_stream(ctx, progs, "generated")
+    progs = [gen_mixed_prog(ctx.rng) for _ in range(1500 if thorough else 200)]
+    run_stream(ctx, progs, "mixed-float-decimal")
     ctx.extra["alias_relation"] = ("compared over the whole history of every program: Magnitude, value array, "
                                    "error array, BaseUnits, dict of every live quantity after every step")
 
